@@ -22,10 +22,15 @@ Definition kind_encrypted (c : mbi_class) : bool :=
 
 (* every class of the database: duplicate-free mixin list, image type in 0..63, an App mixin, and one of the known kinds;
    the kind "plain/CRC" is the one for which parse (export x) = x is proved end to end (roundtrip_plain_crc). *)
+(* structural hypotheses of disassemble_cuts_collect for the signed classes without relocation-table mixin *)
+Definition cert_cut_hyp (c : mbi_class) : bool :=
+  negb (c_type c =? 0) &&
+  (opt_mixin_id (provider c SDisassemble) =? opt_mixin_id (provider c SCollect)).
 Definition wf_class (c : mbi_class) : bool :=
   nodupb (c_mixins c) && (0 <=? c_type c) && (c_type c <? 64) && has c MixinApp &&
   negb (has c MixinTrustZone && has c MixinTrustZoneMandatory) &&
-  (wf_plain_crc c || kind_signed_v1 c || kind_signed_v21 c || kind_encrypted c || negb (supported c)).
+  (wf_plain_crc c || kind_signed_v1 c || kind_signed_v21 c || kind_encrypted c || negb (supported c)) &&
+  (if (kind_signed_v1 c || kind_signed_v21 c) && negb (has c MixinRelocTable) then cert_cut_hyp c else true).
 Lemma wf_class_all : forallb wf_class gen_compositions = true.
 Proof. vm_compute. reflexivity. Qed.
 
